@@ -9,6 +9,7 @@
   worker the statement holds.
 -/
 import AM.Model.Workers
+import AM.Model.PutOrder
 
 namespace AM.Workers
 
@@ -441,3 +442,26 @@ theorem final_is_last_submitted_false_for_concurrent_load :
 end Load
 
 end AM.Workers
+
+namespace AM.PutOrder
+
+/-- **Store order is publish order.**  With store-and-publish atomic per submission, every subscriber that
+    applies updates in the order it receives them (`final_is_last_submitted`) ends up with exactly the version
+    the provider holds, whatever the order and concurrency of the submissions. -/
+theorem group_holds_stored_version (puts : List (Nat × String)) (id : Nat) :
+    applied id (atomicTrace puts) = stored id (atomicTrace puts) := by
+  induction puts with
+  | nil => rfl
+  | cons p rest ih =>
+    obtain ⟨i, v⟩ := p
+    simp only [atomicTrace, applied, stored, ih]
+
+/-- Releasing the lock between the store and the publish lets a later submission overtake: the subscriber
+    keeps the older version while the provider holds the newer one. -/
+theorem split_put_reorders :
+    ∃ t : List Eff, stored 1 t = some "v2" ∧ applied 1 t = some "v1" :=
+  ⟨[.store 1 "v1", .store 1 "v2", .publish 1 "v2", .publish 1 "v1"], by decide, by decide⟩
+
+example : applied 1 (atomicTrace [(1, "f1"), (1, "r2")]) = some "r2" := by decide
+
+end AM.PutOrder
